@@ -15,7 +15,6 @@ CONSTANTS
   BestInit = "first"
   ErrorPolicy = "drop"
 INVARIANT C15_ExactlyOnce
-INVARIANT C15_NoDup
-INVARIANT C15_SerialOrder
 INVARIANT C15_ErrorSurfaces
-INVARIANT C15_NoErrorInvented
+\* (only the properties this control must refute are listed: with several violated properties TLC's workers
+\*  would race for which one is reported first; the full list is checked on the right algorithm by the main cfg)
